@@ -40,6 +40,10 @@ pub struct DerCase {
     /// no derive for all types (attributes for all types stay): items may then carry attributes and no derive at all
     #[serde(default)]
     pub no_global_derive: bool,
+    /// a recursive derive `::r::DP` and attribute `#[m(rp)]` registered on this PRELUDE path (e.g. `Option`): the
+    /// root is not a generated type, the types below it are
+    #[serde(default)]
+    pub prelude_rec: Option<String>,
 }
 
 fn spec_of(c: &DerCase) -> SettingsSpec {
@@ -55,6 +59,10 @@ fn spec_of(c: &DerCase) -> SettingsSpec {
     s.attrs_all = vec!["#[m(g)]".into()];
     if !c.compact_as {
         s.compact_as = None;
+    }
+    if let Some(p) = &c.prelude_rec {
+        s.derives_for.push((p.clone(), vec!["::r::DP".into()], true));
+        s.attrs_for.push((p.clone(), vec!["#[m(rp)]".into()], true));
     }
     for (i, r) in c.regs.iter().enumerate() {
         let p = c.graph.path_of(i);
@@ -260,6 +268,24 @@ pub fn check_case(c: &DerCase, ctx: &mut Ctx) {
             e.1.extend(a.iter().cloned());
         }
     }
+    // a recursive root that is a prelude type (not generated itself): the implementation roots it at the first
+    // registry entry with that path; everything generated that is reachable from THAT entry must carry it
+    for (p, d, a) in &rec {
+        if p.contains("::") {
+            continue;
+        }
+        let Some(first) = reg.types.iter().find(|t| t.ty.path.segments.join("::") == *p) else { continue };
+        let mut one = reg.clone();
+        let keep = first.id;
+        one.retain(|i| i == keep);
+        for t in &one.types {
+            if t.ty.path.segments.len() >= 2 {
+                let e = lower.entry(full(&t.ty.path.segments.join("::"))).or_default();
+                e.0.extend(d.iter().cloned());
+                e.1.extend(a.iter().cloned());
+            }
+        }
+    }
     // upper bound: registry reachability from entries with the registered path
     let mut upper: BTreeMap<String, (BTreeSet<String>, BTreeSet<String>)> = BTreeMap::new();
     for (p, d, a) in &rec {
@@ -389,6 +415,20 @@ pub fn run(tier: &str, seed: u64) -> i32 {
                     regs,
                     compact_as: true,
                     no_global_derive: false,
+                    prelude_rec: None,
+                },
+                ctx,
+            );
+        }
+        // a recursive registration on the prelude path `Option` (graphs with an Option<Box<..>> edge)
+        if s.edges.iter().any(|(_, _, l)| *l == Label::OptBox) {
+            check_case(
+                &DerCase {
+                    graph: s.clone(),
+                    regs: vec![Reg::Nothing; s.nodes.len()],
+                    compact_as: true,
+                    no_global_derive: false,
+                    prelude_rec: Some("Option".into()),
                 },
                 ctx,
             );
@@ -401,6 +441,7 @@ pub fn run(tier: &str, seed: u64) -> i32 {
                     regs,
                     compact_as: true,
                     no_global_derive: true,
+                    prelude_rec: None,
                 },
                 ctx,
             );
@@ -411,6 +452,7 @@ pub fn run(tier: &str, seed: u64) -> i32 {
                 regs: vec![Reg::Nothing; s.nodes.len()],
                 compact_as: false,
                 no_global_derive: false,
+                prelude_rec: None,
             },
             ctx,
         );
